@@ -61,6 +61,8 @@ def concretize(c, tag=False):
             elif n in ("ghost_owned_d", "ghost_ref_d"):
                 x["own"] = True        # these have no bare form
                 body = f"{n[:-2]}({cpfx(cp)}{{gh{sfx(cp)}()}})"
+            elif n == "parentp":
+                body = f"parent({cpfx(cp)}b1{sfx(cp)}, [map(q2{sfx(cp)})] b2{sfx(cp)})"
             elif n == "parentp_idx":
                 body = f"parent({cpfx(cp)}0)"
             elif n == "parentp_untyped":
